@@ -381,6 +381,10 @@ class HomeKitConnection:
             await self._connector
         except asyncio.CancelledError:
             pass
+        except Exception:
+            # The connector already ended with an error (e.g. AuthenticationError);
+            # it has been reported via last_connector_error, closing must not fail.
+            pass
 
     async def get(self, target: str) -> HttpResponse:
         """
